@@ -216,6 +216,41 @@ def gen_case(r, tier, classes_allowed=True):
         a, b = (ldl, dl) if side == "Wr" else (dl, ldl)
         return b < 0 or (a >= 0 and a <= b)
 
+    if r.random() < 0.4:
+        # a remote participant with 2-3 endpoints matched to the one local endpoint (plus sometimes an
+        # incompatible one and one of the other participant) departs WITHOUT disposing them: lease expiry,
+        # ignore_participant or SPDP dispose with lost SEDP -- every one of its matches must go
+        p = crash[0] if crash and r.random() < 0.6 else r.choice([1, 2])
+        good = [d for d in RDLS if compat(d, 0)]
+        bad = [d for d in RDLS if not compat(d, 0)]
+        for _ in range(r.randint(2, 3)):
+            dl = r.choice(good)
+            eps.append({"p": p, "live": True, "dl": dl, "topic": 0})
+            ev.append(["new", p, 0, dl, r.randint(0, 3)])
+        if bad and r.random() < 0.4:
+            dl = r.choice(bad)
+            eps.append({"p": p, "live": True, "dl": dl, "topic": 0})
+            ev.append(["new", p, 0, dl, 0])
+        if r.random() < 0.5:
+            dl = r.choice(good)
+            eps.append({"p": 3 - p, "live": True, "dl": dl, "topic": 0})
+            ev.insert(r.randrange(len(ev) + 1), ["new", 3 - p, 0, dl, 1])
+            # keep the endpoint indices consistent with the creation order of the events
+            order = [e for e in ev if e[0] == "new"]
+            eps[:] = [{"p": e[1], "live": True, "dl": e[3], "topic": e[2]} for e in order]
+        ev += [["read"], ["list"]]
+        if side == "Wr" and r.random() < 0.5:
+            ev.append(["send", r.randint(1, 99)])
+        kind = r.choice((["crash"] * 3 if p in crash else []) + ["ign", "ign", "lossy"])
+        dead.add(p)
+        for e in eps:
+            if e["p"] == p:
+                e["live"] = False
+        ev += [[kind, p], ["read"], ["list"]]
+        if side == "Wr":
+            ev.append(["send", r.randint(1, 99)])
+        ev.append(["read"])
+        n += len(ev)
     while len(ev) < n:
         k = r.random()
         livep = [p for p in (1, 2) if p not in dead]
@@ -286,6 +321,17 @@ def corpus():
         {"side": "Rd", "ldl": S2, "crash": [], "ev": [["new", 1, 0, S, 0], ["read"], ["upd", 0, S, 7], ["read"], ["list"]]},
         {"side": "Rd", "ldl": S, "crash": [], "ev": [["new", 1, 0, S, 0], ["read"], ["upd", 0, S2, 0], ["read"], ["list"]]},
         {"side": "Rd", "ldl": S, "crash": [2], "ev": [["new", 2, 0, S, 0], ["read"], ["crash", 2], ["read"], ["list"], ["read"]]},
+        # a participant with several endpoints matched to one local endpoint departs without disposing them
+        # (lease expiry / ignore_participant / lost SEDP): ALL its matches go, the other participant's stay
+        {"side": "Wr", "ldl": S, "crash": [1], "ev": [["new", 1, 0, -1, 0], ["new", 1, 0, S2, 1], ["new", 2, 0, -1, 2], ["new", 1, 0, S, 3],
+                                                       ["read"], ["list"], ["crash", 1], ["read"], ["list"], ["send", 5], ["read"]]},
+        {"side": "Wr", "ldl": S, "crash": [], "ev": [["new", 2, 0, -1, 0], ["new", 2, 0, S2, 1], ["new", 2, 0, 500_000_000, 1], ["read"], ["list"],
+                                                      ["ign", 2], ["read"], ["list"], ["send", 6], ["read"]]},
+        {"side": "Wr", "ldl": S, "crash": [], "ev": [["new", 1, 0, -1, 0], ["new", 1, 0, -1, 1], ["new", 1, 0, -1, 2], ["read"],
+                                                      ["lossy", 1], ["read"], ["list"], ["read"]]},
+        {"side": "Rd", "ldl": S2, "crash": [2], "ev": [["new", 2, 0, S, 0], ["new", 2, 0, S2, 1], ["new", 1, 0, S, 2], ["new", 2, 0, S, 3],
+                                                        ["read"], ["list"], ["crash", 2], ["read"], ["list"], ["read"]]},
+        {"side": "Rd", "ldl": -1, "crash": [], "ev": [["new", 1, 0, S, 0], ["new", 1, 0, -1, 1], ["read"], ["list"], ["ign", 1], ["read"], ["list"]]},
         # clean histories
         {"side": "Wr", "ldl": S, "crash": [], "ev": [["new", 1, 0, -1, 0], ["new", 2, 0, S2, 1], ["new", 2, 0, 500_000_000, 1], ["new", 1, 1, -1, 0],
                                                       ["read"], ["list"], ["send", 1], ["leave", 2], ["read"], ["list"], ["read"]]},
@@ -294,7 +340,8 @@ def corpus():
 
 
 def nontrivial(c, out):
-    if out and " 1 1 1 1" in out or (out and "pm 1" in out) or (out and "sm 1" in out):
+    import re
+    if out and re.search(r"\| (pm|sm) [1-9]", out):   # some match happened and a status was read
         return case_line(c)
     return None
 
